@@ -71,13 +71,27 @@ def gen_message(rng, i):
         truth.setdefault(name, []).append(decoded)
     hs.append(b'X-Id: %d' % i)
     if rng.randrange(3) == 0:
-        hs.append(b'Date: Mon, 1 Jan 2024 10:00:00 +0000')
-        truth[b'Date'] = [b'Mon, 1 Jan 2024 10:00:00 +0000']
+        z = rng.choice([b'+0000', b'+0000', b'EST', b'CET', b'PST', b'GMT', b'-0330'])
+        hs.append(b'Date: Mon, 1 Jan 2024 10:00:00 ' + z)
+        truth[b'Date'] = [b'Mon, 1 Jan 2024 10:00:00 ' + z]
     lines = []
     for _ in range(rng.randrange(1, 6)):
         ind = rng.choice([b'', b'', b' ', b'   ', b'\t', b' \t ', b'        '])
         lines.append(ind + b' '.join(rng.choice(WORDS_ASCII + WORDS_MB) for _ in range(rng.randrange(1, 4))))
     body = b'\n'.join(lines) + b'\n'
+    if rng.randrange(5) == 0 and not any(l.lstrip(b' \t').startswith(b'--') for l in lines):
+        # multipart/alternative: the body conditions see the text/plain part, decoded by ITS transfer encoding (also: none at all)
+        penc = rng.choice([None, b'7bit', b'8bit', b'base64', b'quoted-printable'])
+        plain = b'Content-Type: text/plain; charset=utf-8\n' + (b'Content-Transfer-Encoding: ' + penc + b'\n' if penc else b'') + b'\n' + \
+                (msggen.encode_body(rng, body, penc) if penc in (b'base64', b'quoted-printable') else body)
+        if not plain.endswith(b'\n'):
+            plain += b'=\n' if penc == b'quoted-printable' else b'\n'
+        html = b'Content-Type: text/html\n\n<p>hello world needle</p>\n'
+        parts = [html, plain] if rng.randrange(2) else [plain, html]
+        hs.append(b'Content-Type: multipart/alternative; boundary="altb"')
+        rng.shuffle(hs)
+        text = b'\n'.join(hs) + b'\n\npreamble hello\n' + b''.join(b'--altb\n' + p_ for p_ in parts) + b'--altb--\n'
+        return text, {'headers': truth, 'body': body}
     enc = rng.choice([None, None, b'base64', b'quoted-printable'])
     if enc:
         hs.append(b'Content-Transfer-Encoding: ' + enc)
@@ -105,6 +119,9 @@ def gen_rules(rng, dst, dst2, helper):
                 conds.append(rng.choice([('date', [b'Date'], b'.*', False), ('datemod', [b'*mtime'], b'.*', False), ('datecre', [b'*ctime'], b'.*', False)]))
             else:
                 conds.append(('negnone', [], b'', False))
+        if rng.randrange(4) == 0:
+            # the Date header (possibly with a zone abbreviation) is parsed before a file time is shown
+            conds = [('date', [b'Date'], b'.*', False), rng.choice([('datemod', [b'*mtime'], b'.*', False), ('datecre', [b'*ctime'], b'.*', False)])] + conds[:1]
         acts = []
         a = rng.randrange(10)
         if a == 8:
@@ -272,6 +289,7 @@ def parse_blocks(out, paths, conf):
 
 def one_round(ck, rng, stats, samples):
     loc = rng.choice(['C', 'C.UTF-8'])
+    tzname, tzoff = rng.choice([(None, 0), (None, 0), ('JST-9', 9 * 3600), ('NZST-12', 12 * 3600), ('EST5', -5 * 3600)])     # fixed offsets: no DST rules needed
     sb = mdrun.Sandbox()
     src = sb.maildir('src'); dst = sb.maildir('dst'); dst2 = sb.maildir('dst2')
     helper = common.rec_helper()
@@ -288,11 +306,13 @@ def one_round(ck, rng, stats, samples):
         mt = 1600000000 + rng.randrange(100000)
         nm = sb.add(src, sub, text, mtime=mt)
         st = os.stat(os.path.join(src, sub, nm))
-        fmt = lambda t: time.strftime('%a, %d %b %Y %H:%M:%S', time.gmtime(t)).encode()
+        fmt = lambda t: time.strftime('%a, %d %b %Y %H:%M:%S', time.gmtime(t + tzoff)).encode()       # file times are shown in the local zone of the run
         truth['headers'][b'*mtime'] = [fmt(int(st.st_mtime))]
         truth['headers'][b'*ctime'] = [fmt(int(st.st_ctime))]
         msgs[os.path.join(src, sub, nm).encode()] = (i, text, truth, sub, nm)
     env = {'LC_ALL': loc}
+    if tzname:
+        env['TZ'] = tzname
     rc, out, err = sb.run(['-d'], conf=conf, env=env)
     stats['runs'] += 1
     rep = {'locale': loc, 'config': (b'\n'.join(conf_lines)).decode(errors='replace'), 'stdout': out.decode(errors='replace')[:3000],
